@@ -461,3 +461,52 @@ Proof.
     - rewrite combine_length, <- Hlen, Nat.min_id. exact Hk. }
   rewrite E. simpl. repeat split.
 Qed.
+
+(* ------------------------------------------------------------------------- *)
+(** * trace-level consistency of the Job ID column                             *)
+(* ------------------------------------------------------------------------- *)
+
+Lemma last_sub_gen : forall subs x acc,
+  fold_left (fun a p => if Nat.eqb (fst p) x then Some (snd p) else a) subs acc
+  = match subs_of subs x with [] => acc | j :: l => Some (last (j :: l) 0) end.
+Proof.
+  induction subs as [|[y j] subs IH]; intros x acc; [reflexivity|].
+  simpl fold_left. rewrite IH. unfold subs_of. simpl filter.
+  destruct (Nat.eqb y x); simpl map.
+  - fold (subs_of subs x). destruct (subs_of subs x); reflexivity.
+  - reflexivity.
+Qed.
+
+Lemma jobid_cell_last : forall subs x,
+  jobid_cell (last_sub subs x) = last (map job_str (subs_of subs x)) (s "--").
+Proof.
+  intros subs x. unfold last_sub. rewrite last_sub_gen.
+  destruct (subs_of subs x) as [|j l]; [reflexivity|].
+  simpl jobid_cell. generalize j. induction l as [|j' l IH]; intro j0; [reflexivity|].
+  change (last (j0 :: j' :: l) 0) with (last (j' :: l) 0).
+  change (last (map job_str (j0 :: j' :: l)) (s "--")) with (last (map job_str (j' :: l)) (s "--")).
+  apply IH.
+Qed.
+
+Theorem job_column_model : forall g src recs subs,
+  valid g src recs = true -> H12_rows g src recs = true ->
+  jobs_coupled g src recs subs = true ->
+  job_column_ok g src recs subs (snd (model_obs g src recs)) = true.
+Proof.
+  intros g src recs subs Hv Hh Hc. destruct (valid_parts g src recs Hv) as (Hwf & Hreach & _).
+  unfold model_obs. simpl snd. rewrite (status_roundtrip g src recs Hh). unfold job_column_ok.
+  assert (Hcl : col_len (columns status_header (status_rows g src recs))
+                = List.length (status_rows g src recs)) by (simpl; apply map_length).
+  rewrite Hcl, table_rows_columns.
+  2:{ apply Forall_forall. intros r Hr. unfold status_rows in Hr. apply in_map_iff in Hr.
+      destruct Hr as (k & <- & _). reflexivity. }
+  apply forallb_forall. intros k Hk. apply existsb_exists.
+  exists (row_of (rec_of recs k)). split.
+  - unfold status_rows. apply (in_map (fun k0 => row_of (rec_of recs k0))).
+    destruct (rows_once g src Hwf Hreach) as [_ Hp].
+    eapply Permutation_in; [apply Permutation_sym, Hp|exact Hk].
+  - simpl nth. rewrite str_eqb_refl. simpl. apply str_eqb_eq.
+    unfold jobid_str. rewrite jobid_cell_last.
+    unfold jobs_coupled in Hc. rewrite forallb_forall in Hc. specialize (Hc k Hk).
+    apply strs_eqb_eq in Hc. rewrite Hc. reflexivity.
+Qed.
